@@ -89,6 +89,16 @@ def run(prog: Program, rep: Report, tier: str):
         for n, t in rets:
             # returns (item[perm], perm) with the same perm
             ok = ok and t[1][0][0] == "sub" and _strip(t[1][0][2]) == _strip(t[1][1])
+        # the partner is mixed in place with the original: it must never be the original object itself
+        rep.rule("G8.partner-not-aliased", "shuffle() never returns the tensor it was given (every return builds a new tensor: "
+                 "clone / roll / flip / advanced indexing): the in-place mix own.mul_(L).add_(partner.mul_(1 - L)) is only a "
+                 "convex combination when partner does not alias own")
+        ip = ("param", shf.params()[1])
+        alias = [n for n, t in sa.returns() if t is not None and ((t[0] == "tuple" and t[1] and t[1][0] == ip) or t == ip)]
+        rep.decide(not alias, "G8.partner-not-aliased", shf, "returns-fresh-tensor", "every return builds a new tensor",
+                   "shuffle returns its argument itself on some path (e.g. for a batch of one): the in-place mix then scales the "
+                   "sample by 2*L*(1-L) instead of leaving it unchanged - labels no longer sum to one", line=sa.line(alias[0]) if alias
+                   else shf.node.lineno, clause="C10.1")
         rep.decide(ok, "G4.partner-threading", shf, "reuse-given-permutation",
                    "a new permutation is drawn only when none was given; the one used is the one returned",
                    "shuffle draws a new permutation although one was given, or returns a different permutation than the one "
